@@ -288,6 +288,6 @@ def to_chain_structure(qc, setup="linear"):
         else:
             # This gate can be general quantum operations
             # such as measurement or global phase.
-            qc_t.add_gate(gate)
+            qc_t.gates.append(gate)
 
     return qc_t
